@@ -19,8 +19,8 @@
 import Nuts.Model.ZSetA
 import NutsProofs.Lemmas.ZSetOrder
 import NutsProofs.Lemmas.SkiplistRank
-import NutsProofs.Facts
 import NutsProofs.Lemmas.Isolation
+import NutsProofs.Pins.Zset
 namespace NutsProofs.C07
 open Nuts Nuts.Model Nuts.Model.ZSetA NutsProofs NutsProofs.ZOrd
 
